@@ -86,16 +86,22 @@ def uniqueDirectiveNames (T : TsDoc) : Bool := noDup ((directiveDefs T).map (·.
 
 /-! ### type references are defined -/
 
-/-- every named type that is referenced — field, argument and input-field types, implemented interfaces,
-    union members, root operation types — is defined -/
-def knownTypes (T : TsDoc) : Bool :=
+/-- every named type referenced inside a type or directive definition — field, argument and input-field
+    types, implemented interfaces, union members — is defined -/
+def knownTypeRefs (T : TsDoc) : Bool :=
   let S : Schema := ⟨T⟩
   (typeDefs T).all (fun t =>
     (fieldsOfT t).all (fun f => known S f.ty.unwrapped) &&
     (implementsOfT t).all (fun i => known S i.1) &&
     (membersOfT t).all (fun m => known S m.1)) &&
-  (inputValues T).all (fun v => known S v.ty.unwrapped) &&
-  (schemaDefs T).all (fun s => s.roots.all fun r => known S r.2.1)
+  (inputValues T).all (fun v => known S v.ty.unwrapped)
+
+/-- §3.3.1: the root operation types named by a schema definition are defined -/
+def knownRootTypes (T : TsDoc) : Bool :=
+  (schemaDefs T).all (fun s => s.roots.all fun r => known ⟨T⟩ r.2.1)
+
+/-- every named type that is referenced is defined -/
+def knownTypes (T : TsDoc) : Bool := knownTypeRefs T && knownRootTypes T
 
 /-! ### input / output positions (§3.4.2 IsInputType / IsOutputType) -/
 
